@@ -182,6 +182,19 @@ Section Success.
     - rewrite Nc. apply parts_sublist.
     - rewrite Nd. apply parts_sublist.
   Qed.
+  Lemma segment_batches_std f cf df :
+    is_adv_file (sf_batches f) = false -> segment T f = SOk cf df ->
+    sf_batches cf = renumber 1 (flat_map (part T true) (sf_batches f)) /\
+    sf_batches df = renumber 1 (flat_map (part T false) (sf_batches f)).
+  Proof.
+    intros Ha Hs. unfold segment in Hs. destruct (validate T f) eqn:Ev; [discriminate|].
+    destruct (validate_std_facts T f Ev Ha) as [Hb _].
+    destruct (finish T (sf_origin f) (sf_dest f) (flat_map (part T true) (sf_batches f)) (flat_map (ipart T true) (sf_iat f))) as [c|] eqn:Ec; [|discriminate].
+    destruct (finish T (sf_origin f) (sf_dest f) (flat_map (part T false) (sf_batches f)) (flat_map (ipart T false) (sf_iat f))) as [dd|] eqn:Ed; [|discriminate].
+    injection Hs as <- <-. split.
+    - exact (finish_batches _ _ _ _ _ (std_uniform f true _ Hb) Ec).
+    - exact (finish_batches _ _ _ _ _ (std_uniform f false _ Hb) Ed).
+  Qed.
 End Success.
 
 (* ================================================================ B. AddBatch bookkeeping *)
@@ -373,6 +386,98 @@ Section Lists.
       - intros cr b y Hb Hy. unfold SegmentGen.is_ret. now rewrite (part_cat cr b y (Hu b Hb) Hy).
       - exact is_noc_entries.
       - intros cr b y Hb Hy. unfold SegmentGen.is_noc. now rewrite (part_cat cr b y (Hu b Hb) Hy).
+    Qed.
+    (* ---- isCategory inside validation: success with categories *)
+
+    Lemma cat_eqb_eq a b : cat_eqb a b = true <-> a = b.
+    Proof. destruct a, b; cbn; split; intros H; try reflexivity; discriminate. Qed.
+
+    Lemma cat_eqb_refl a : cat_eqb a a = true.
+    Proof. now destruct a. Qed.
+
+    Lemma scat_noc c : scat c = CNOC -> c = CNOC.
+    Proof. destruct c; cbn; intros H; try reflexivity; discriminate. Qed.
+
+    (* a batch isCategory accepts and whose entries agree on Category(): all labels are equal *)
+    Lemma uniform_ok_all_equal b : is_category_ok cat b = true -> cat_uniform cat b = true ->
+      forall e e', In e (sb_entries b) -> In e' (sb_entries b) -> ecat cat e = ecat cat e'.
+    Proof.
+      intros Hok Hu. pose proof (cat_uniform_spec b Hu) as Hall.
+      unfold is_category_ok in Hok. destruct (sb_entries b) as [|e0 r] eqn:Ees; [intros e e' []|].
+      assert (Hfirst : forall e, In e (e0 :: r) -> ecat cat e = ecat cat e0).
+      { destruct r as [|e1 r1]; [intros e [<-|[]]; reflexivity|].
+        intros e He. rewrite forallb_forall in Hok. specialize (Hok e He).
+        apply orb_prop in Hok as [Hn|Hq]; [|now apply cat_eqb_eq].
+        apply cat_eqb_eq in Hn. rewrite Hn.
+        pose proof (Hall e He) as H1. pose proof (Hall e0 (or_introl eq_refl)) as H0.
+        rewrite Hn in H1. cbn [scat] in H1. rewrite <- H1 in H0. symmetry. now apply scat_noc. }
+      intros e e' He He'. now rewrite (Hfirst e He), (Hfirst e' He').
+    Qed.
+
+    Lemma all_equal_ok b : (forall e e', In e (sb_entries b) -> In e' (sb_entries b) -> ecat cat e = ecat cat e') ->
+      is_category_ok cat b = true.
+    Proof.
+      intros H. unfold is_category_ok. destruct (sb_entries b) as [|e0 r] eqn:E; [reflexivity|].
+      destruct r as [|e1 r1]; [reflexivity|]. apply forallb_forall. intros e He.
+      rewrite (H e e0 He (or_introl eq_refl)), cat_eqb_refl. apply orb_true_r.
+    Qed.
+
+    Lemma is_category_ok_entries a b : sb_entries a = sb_entries b -> is_category_ok cat a = is_category_ok cat b.
+    Proof. unfold is_category_ok. now intros ->. Qed.
+
+    (* what one batch hands over: itself, or a fresh batch holding a sub-list of its entries *)
+    Lemma part_entries cr b y : In y (part T cr b) ->
+      y = b \/ exists p, sb_entries y = filter p (sb_entries b).
+    Proof.
+      intros Hy.
+      assert (Hsub : forall amt adv scc num id p, In y (fresh amt adv scc num id (filter p (sb_entries b))) ->
+                     exists q, sb_entries y = filter q (sb_entries b)).
+      { intros amt adv scc num id p Hf. apply fresh_In in Hf as (He & _). now exists p. }
+      unfold part in Hy. destruct (sb_adv b).
+      - destruct (sb_scc b =? 280); [right; now apply Hsub in Hy|destruct Hy].
+      - destruct (scc_lookup (st_scc_std T) (sb_scc b)) as [[c d| | |]|]; try (destruct Hy; fail).
+        + right. now apply Hsub in Hy.
+        + destruct cr; [|destruct Hy]. destruct Hy as [<-|[]]. now left.
+        + destruct cr; [destruct Hy|]. destruct Hy as [<-|[]]. now left.
+    Qed.
+
+    Lemma validate_cat_facts f : validate_cat cat T f = None -> is_adv_file (sf_batches f) = false ->
+      validate T f = None /\ forallb (is_category_ok cat) (sf_batches f) = true.
+    Proof.
+      unfold validate_cat. intros H Ha. rewrite Ha in H.
+      destruct (forallb (fun b => batch_ok T b && is_category_ok cat b) (sf_batches f)) eqn:E; [|discriminate].
+      split; [exact H|]. apply forallb_forall. intros b Hb. rewrite forallb_forall in E.
+      specialize (E b Hb). now apply andb_prop in E as [_ E].
+    Qed.
+
+    Lemma segment_cat_ok f gc gd : segment_cat cat T f = GOk gc gd -> segment_gen cat T f = GOk gc gd.
+    Proof.
+      unfold segment_cat. destruct (validate_cat cat T f); [discriminate|].
+      destruct (segment_gen cat T f) as [c d|]; [|discriminate].
+      destruct (cats_ok cat (sf_batches (g_file c)) && cats_ok cat (sf_batches (g_file d))); [|discriminate].
+      now intros H.
+    Qed.
+
+    (* SegmentFile with the category check succeeds for every valid non-ADV file whose batches
+       are category-uniform *)
+    Theorem segment_cat_succeeds f :
+      validate_cat cat T f = None -> is_adv_file (sf_batches f) = false ->
+      forallb (cat_uniform cat) (sf_batches f) = true ->
+      exists gc gd, segment_cat cat T f = GOk gc gd.
+    Proof.
+      intros Hvc Ha Hu. destruct (validate_cat_facts f Hvc Ha) as [Hv Hok].
+      destruct (segment_succeeds_std T HT f Hv Ha) as (cf & df & Hs).
+      destruct (segment_batches_std T HT f cf df Ha Hs) as [Bc Bd].
+      assert (Hout : forall cr, forallb (is_category_ok cat) (renumber 1 (flat_map (part T cr) (sf_batches f))) = true).
+      { intros cr. apply forallb_forall. intros x Hx. destruct (renumber_In _ _ _ Hx) as (y & Hy & He & _).
+        rewrite (is_category_ok_entries x y He). apply in_flat_map in Hy as (b & Hb & Hy).
+        rewrite forallb_forall in Hok, Hu.
+        destruct (part_entries cr b y Hy) as [->|(p & Hp)]; [now apply Hok|].
+        apply all_equal_ok. intros e e' H1 H2. rewrite Hp in H1, H2.
+        apply filter_In in H1 as [H1 _]. apply filter_In in H2 as [H2 _].
+        exact (uniform_ok_all_equal b (Hok b Hb) (Hu b Hb) e e' H1 H2). }
+      eexists _, _. unfold segment_cat. rewrite Hvc. unfold segment_gen. rewrite Hs. cbn [g_file].
+      unfold cats_ok. rewrite Bc, Bd, !Hout, !orb_true_r. reflexivity.
     Qed.
   End Seg.
 End Lists.
